@@ -35,6 +35,11 @@ func verifNewPayWorld() *verifPayWorld {
 	w.pay = &PaymentService{NonceStore: db, AccountStore: db, BalanceStore: w.dep}
 	fee := w.fee
 	w.pay.WithdrawFee = func(amount *big.Int) *big.Int { return amount.Sub(amount, fee) } // production shape (pool.go)
+	if verifapi.Param("feestyles", 0) == 1 && verifapi.Bool("fee-returns-new-value") {
+		// the documented contract of WithdrawFee is "returns the new total": a fee function may as well
+		// compute it into a fresh value and leave its argument alone
+		w.pay.WithdrawFee = func(amount *big.Int) *big.Int { return new(big.Int).Sub(amount, fee) }
+	}
 	if verifapi.Bool("hasmin") {
 		w.pay.WithdrawMin = verifapi.BigInt("wmin")
 	}
